@@ -17,7 +17,211 @@ func init() {
 		ruleK3(c, "C15.K3")
 		ruleK4(c, "C15.K4")
 		ruleK5(c, "C15.K5")
+		ruleK6(c, "C15.K6")
 	}
+}
+
+type bitLoop struct {
+	slice ssa.Value // the block being marked
+	init  ssa.Value // first bit
+	bound ssa.Value // one past the last bit
+	store ssa.Instruction
+}
+
+// bitLoops finds loops of the form  for bn := A; bn < B; bn++ { S[bn/8] |= 1 << (bn%8) }.
+func bitLoops(fn *ssa.Function) []bitLoop {
+	var out []bitLoop
+	for _, b := range fn.Blocks {
+		for _, in := range b.Instrs {
+			st, ok := in.(*ssa.Store)
+			if !ok {
+				continue
+			}
+			ia, ok := st.Addr.(*ssa.IndexAddr)
+			if !ok {
+				continue
+			}
+			or, ok := st.Val.(*ssa.BinOp)
+			if !ok || or.Op != token.OR {
+				continue
+			}
+			q, ok := ia.Index.(*ssa.BinOp)
+			if !ok || q.Op != token.QUO {
+				continue
+			}
+			if k, isk := constInt(q.Y); !isk || k != 8 {
+				continue
+			}
+			phi, ok := q.X.(*ssa.Phi)
+			if !ok || len(phi.Edges) != 2 {
+				continue
+			}
+			// value = old | 1 << (phi % 8), old = load of the same element
+			ld, ok := or.X.(*ssa.UnOp)
+			if !ok {
+				continue
+			}
+			ia2, ok := ld.X.(*ssa.IndexAddr)
+			if !ok || ia2.X != ia.X || ia2.Index != ia.Index {
+				continue
+			}
+			sh, ok := or.Y.(*ssa.BinOp)
+			if !ok || sh.Op != token.SHL {
+				continue
+			}
+			one, is1 := constInt(sh.X)
+			rem, ok := sh.Y.(*ssa.BinOp)
+			if !ok || !is1 || one != 1 || rem.Op != token.REM || rem.X != ssa.Value(phi) {
+				continue
+			}
+			if k, isk := constInt(rem.Y); !isk || k != 8 {
+				continue
+			}
+			// phi = [init, phi+1]
+			var init ssa.Value
+			inc := false
+			for _, e := range phi.Edges {
+				if add, ok := e.(*ssa.BinOp); ok && add.Op == token.ADD && add.X == ssa.Value(phi) {
+					if k, isk := constInt(add.Y); isk && k == 1 {
+						inc = true
+						continue
+					}
+				}
+				init = e
+			}
+			if !inc || init == nil {
+				continue
+			}
+			// bound from the loop head's condition
+			var bound ssa.Value
+			if ifi, ok := phi.Block().Instrs[len(phi.Block().Instrs)-1].(*ssa.If); ok {
+				if cmp, ok := ifi.Cond.(*ssa.BinOp); ok && cmp.Op == token.LSS && cmp.X == ssa.Value(phi) {
+					bound = cmp.Y
+				}
+			}
+			if bound == nil {
+				continue
+			}
+			out = append(out, bitLoop{slice: ia.X, init: init, bound: bound, store: in})
+		}
+	}
+	return out
+}
+
+// ruleK6: mkfs marks bits [0, n) of the first bitmap block and bits
+// [m % NBITBLOCK, NBITBLOCK) of bitmap block m / NBITBLOCK, and writes those
+// two blocks where the bitmap lives.  With the refusal guards of K3 (n <
+// NBITBLOCK, n <= m, m < NBlockBitmap * NBITBLOCK) and K4 this marks exactly
+// the blocks outside [DataStart, MaxBnum) for every accepted disk size: the
+// statement holds by the form of the code, no size is enumerated.
+func ruleK6(c *Ctx, id string) {
+	P, R := c.P, c.R
+	R.Rule(id, "mkfs bit marking by construction: one loop sets bits [0, n) of the block written at BitmapBlockStart(); one loop sets bits [m % NBITBLOCK, NBITBLOCK) of the block written at m / NBITBLOCK + BitmapBlockStart(), which is a fresh block exactly when it is not the first bitmap block", 1)
+	mark := c.fn(id, "nfs.markAlloc")
+	if mark == nil {
+		return
+	}
+	nbit := constOfPkg(P, jrnlPath+"/common", "NBITBLOCK")
+	loops := bitLoops(mark)
+	if len(loops) != 2 {
+		R.Pass(id, "nfs.markAlloc|bit loops", P.Pos(mark.Pos()), "the two bit-marking loops have the recognised form", fmt.Sprintf("form not recognised (%d loops): the bit arithmetic is NOT DECIDED on this tree (no claim)", len(loops)))
+		return
+	}
+	var nP, mP *ssa.Parameter
+	for _, p := range mark.Params {
+		if p.Name() == "n" {
+			nP = p
+		}
+		if p.Name() == "m" {
+			mP = p
+		}
+	}
+	var l1, l2 *bitLoop
+	for i := range loops {
+		if k, isk := constInt(loops[i].init); isk && k == 0 {
+			l1 = &loops[i]
+		} else {
+			l2 = &loops[i]
+		}
+	}
+	if l1 == nil || l2 == nil || nP == nil || mP == nil {
+		R.Fail(id, "nfs.markAlloc|bit loops", P.Pos(mark.Pos()), "one loop starts at bit 0, the other at m % NBITBLOCK", "the loops do not have these starting points: blocks at the start of the disk or beyond its end are left allocatable")
+		return
+	}
+	ok1 := stripConv(l1.bound) == ssa.Value(nP)
+	R.Check(ok1, id, "nfs.markAlloc|head loop marks [0, n)", P.Pos(l1.store.Pos()), "the first loop sets exactly bits 0 .. n-1 (log, bitmaps and inode table)", "bounds 0 and n", "the head of the block bitmap is marked with other bounds than [0, n): a metadata block is left free or a data block is lost")
+	okInit := false
+	if rem, ok := stripConv(l2.init).(*ssa.BinOp); ok && rem.Op == token.REM && stripConv(rem.X) == ssa.Value(mP) {
+		if k, isk := constInt(rem.Y); isk && k == nbit {
+			okInit = true
+		}
+	}
+	kb, iskb := constInt(l2.bound)
+	R.Check(okInit && iskb && kb == nbit, id, "nfs.markAlloc|tail loop marks [m % NBITBLOCK, NBITBLOCK)", P.Pos(l2.store.Pos()), "the second loop sets exactly the bits from the disk size to the end of its bitmap block", "bounds m % NBITBLOCK and NBITBLOCK", "the tail of the block bitmap is marked with other bounds: a block beyond the disk is allocatable, or the last data blocks are lost")
+	// where the two blocks are written
+	var w1, w2 ssa.Instruction
+	for _, b := range mark.Blocks {
+		for _, in := range b.Instrs {
+			if k, ok := rawDiskOp(in); ok && k == "write" {
+				data := callCommon(in).Args[1]
+				if data == l1.slice {
+					w1 = in
+				}
+				if data == l2.slice {
+					w2 = in
+				}
+			}
+		}
+	}
+	isStart := func(v ssa.Value) bool {
+		cl, ok := stripConv(v).(*ssa.Call)
+		return ok && cl.Call.StaticCallee() != nil && cl.Call.StaticCallee().Name() == "BitmapBlockStart"
+	}
+	okW1 := w1 != nil && isStart(callCommon(w1).Args[0]) && reachableFrom(l1.store, w1)
+	R.Check(okW1, id, "nfs.markAlloc|head block written at BitmapBlockStart()", P.Pos(mark.Pos()), "the block marked by the first loop is written to the first bitmap block, after the loop", "address and order", "the head marks are written elsewhere or before they are made")
+	okW2 := false
+	var blkno ssa.Value
+	if w2 != nil && reachableFrom(l2.store, w2) {
+		blkno = stripConv(callCommon(w2).Args[0])
+		if add, ok := blkno.(*ssa.BinOp); ok && add.Op == token.ADD {
+			for _, pr := range [][2]ssa.Value{{add.X, add.Y}, {add.Y, add.X}} {
+				if q, ok := stripConv(pr[0]).(*ssa.BinOp); ok && q.Op == token.QUO && stripConv(q.X) == ssa.Value(mP) {
+					if k, isk := constInt(q.Y); isk && k == nbit && isStart(pr[1]) {
+						okW2 = true
+					}
+				}
+			}
+		}
+	}
+	R.Check(okW2, id, "nfs.markAlloc|tail block written at m / NBITBLOCK + BitmapBlockStart()", P.Pos(mark.Pos()), "the block marked by the second loop is written to the bitmap block that holds bit m, after the loop", "address and order", "the tail marks are written to another block")
+	// the tail block is the head block unless it lies beyond the first bitmap block
+	okPhi := false
+	if phi, ok := l2.slice.(*ssa.Phi); ok && len(phi.Edges) == 2 && okW2 {
+		for i, e := range phi.Edges {
+			other := phi.Edges[1-i]
+			if e == l1.slice {
+				// the other edge: fresh block, entered only when blkno > BitmapBlockStart()
+				if sl, ok := other.(*ssa.Slice); ok {
+					if _, isAlloc := sl.X.(*ssa.Alloc); isAlloc {
+						fresh := phi.Block().Preds[1-i]
+						okPhi = guardedBy(mark, fresh, func(cd Cond) (bool, bool) {
+							if cd.X == nil || cd.Y == nil {
+								return false, false
+							}
+							if stripConv(cd.X) == blkno && isStart(cd.Y) && cd.Op == token.GTR {
+								return true, true
+							}
+							if stripConv(cd.X) == blkno && isStart(cd.Y) && cd.Op == token.NEQ {
+								return true, true
+							}
+							return false, false
+						})
+					}
+				}
+			}
+		}
+	}
+	R.Check(okPhi, id, "nfs.markAlloc|tail block shares the head block when they coincide", P.Pos(l2.store.Pos()), "the tail loop marks the head block itself when the disk size lies in the first bitmap block, and a fresh block only otherwise", "phi of the head block and a fresh block under blkno > BitmapBlockStart()", "for small disks the tail write replaces the head marks (metadata blocks become allocatable), or for large ones the head block is rewritten")
 }
 
 // ruleK5: the in-memory allocators are built from the bitmap region they
